@@ -421,8 +421,11 @@ func r04_2(r *Report, p *Program) {
 	}
 }
 
-func r04_3(r *Report, p *Program) {
-	const rule = "R04.3"
+func r04_3(r *Report, p *Program) { ownerRefEdits(r, p, "R04.3") }
+
+// ownerRefEdits is shared by C04 (R04.3) and C02 (R02.6): the ownership edit
+// touches only the parent's own reference.
+func ownerRefEdits(r *Report, p *Program, rule string) {
 	r.Rule(rule, "removeOwnerReference keeps exactly refs with UID != uid; addOwnerReference keeps every foreign ref; release passes Controller.GetUID(); update closures of adopt/release mutate only via SetOwnerReferences")
 	r.Floor(rule, 7)
 	if f := fn(r, p, rule, "dynamic/controllerref.removeOwnerReference"); f != nil {
